@@ -19,6 +19,6 @@ Spec == Init /\ [][Next]_v
 
 ProtocolAccepted == WellFormed(Events(v))
 Maximal == FragmentsMaximal(Events(v))
-RefinesRefPrint == RenderAll(Events(v)) = Print(v, DefaultPrint)
+RefinesRefPrint == RenderAll(Events(v)) = PrintDatum(v, DefaultPrint)
 Emit == PrintT(<<"REPLAY", ToJson([v |-> v])>>)
 =============================================================================
